@@ -29,6 +29,9 @@ def pick_shapes(tier, seed, L=2, I=2, family='OO', kind='BTree', quick_extra=10,
     core = shapes.stratify(c5, L, I)
     c6, st6 = cat(family, 'c', kind, 6, L, I)
     core6 = [s for s in shapes.stratify_large(c6, L, I) if s not in core]
+    # four-level shapes only exist from six keys on: the SMALLEST N=6 shapes with the deep features
+    core6 += [s for s in shapes.stratify(c6, L, I, want={'depth4', 'two_nonfirst_steps_first_leaf_1', 'nonfirst_bottom_first_leaf_1'})
+              if s not in core and s not in core6]
     out = [('core', s, c5[s]) for s in core] + [('core', s, c6[s]) for s in core6]
     stats = {'catalogue_N5': st5, 'catalogue_N6': st6, 'L': L, 'I': I}
     chosen = set(core) | set(core6)
@@ -828,6 +831,8 @@ def oom_obligations(pid, tier, seed):
                 pre = ['0 <= op < %d' % h_oom.GROUPS[g], '0 <= n <= %d' % h_oom.NMAX]
                 obs.append(dict(id='%s/%s/n%d/%s' % (pid, kind, n, g), mod='h_oom', fn='oom_step', nk=n, args=args, pre=pre,
                                 params=dict(family='OO', kind=kind, n=n, group=g), timeout=t))
+    # native-key families: the n-th allocation of _BTree_set refused, decided on the IR for fully symbolic words (engine E2)
+    obs += tree_ir_obligations(pid, tier, None, fams=['II', 'QQ'] if quick else ['II', 'UU', 'LL', 'QQ'], sets=True, oom=True)
     from harness import h_oom as _h
     obs.append(dict(id='%s/fs/Bucket/fromBytes' % pid, mod='h_oom', fn='oom_fs', nk=0, args=[('s0', 'int'), ('s1', 'int'), ('n', 'int')],
                     pre=['0 <= s0 < %d' % len(_h.FS_SIZES), '0 <= s1 < %d' % len(_h.FS_SIZES), '0 <= n <= %d' % _h.NMAX],
@@ -1078,7 +1083,7 @@ def leaf_ir_obligations(pid, tier, what):
     return obs
 
 
-def tree_ir_obligations(pid, tier, focus, fams=None, sets=False):
+def tree_ir_obligations(pid, tier, focus, fams=None, sets=False, oom=False):
     """engine E2 at tree level: _BTree_set of the native-key families from IR, one call from every stratified catalogue
     shape (plus stale-separator variants, leaves with spare capacity, never-stored trees)"""
     obs = []
@@ -1109,8 +1114,10 @@ def tree_ir_obligations(pid, tier, focus, fams=None, sets=False):
             # first (32-bit) and last (64-bit) family only
             if cls == 'v' and fam not in (fams[0], fams[-1]):
                 continue
-            if cls == 'big' and fam != fams[0]:
+            if cls == 'big' and (fam != fams[0] or oom):
                 continue
+            if oom and (not stored or spare):
+                continue            # with spare capacity in every vector a call may not allocate at all
             for is_set in ((False, True) if sets else (False,)):
                 if is_set and (cls != '' or fam not in (fams[0], fams[-1])):
                     continue
@@ -1120,15 +1127,18 @@ def tree_ir_obligations(pid, tier, focus, fams=None, sets=False):
                         continue
                     if cls == 'big' and op == 'insert':
                         continue
-                    oid = '%s/ir/%s/tree_set/%s%s/%s/%d%d%s%s' % (pid, fam, 'set-' if is_set else '', sid(tp), op, L, I,
-                                                                  '/spare' if spare else '', '' if stored else '/unstored')
+                    if oom and op == 'delete':
+                        continue            # a delete never allocates
+                    oid = '%s/ir/%s/tree_set/%s%s/%s/%d%d%s%s%s' % (pid, fam, 'set-' if is_set else '', sid(tp), op, L, I,
+                                                                    '/spare' if spare else '', '' if stored else '/unstored', '/oom' if oom else '')
                     if oid in seen:
                         continue
                     seen.add(oid)
                     obs.append(dict(id=oid, engine='llsym', mod='h_kernel', fn='tree_set_native', nk=0,
-                                    args=[('n', 'int'), ('v', 'int')] + [('k%d' % i, 'int') for i in range(mm)] + [('w%d' % i, 'int') for i in range(mm)],
+                                    args=[('n', 'int'), ('v', 'int')] + [('k%d' % i, 'int') for i in range(mm)] + [('w%d' % i, 'int') for i in range(mm)] +
+                                    ([('fa', 'int')] if oom else []),
                                     params=dict(family=fam, kernel='tree_set', tpl=tp, op=op, L=L, I=I, spare=spare, stored=stored,
-                                                is_set=is_set, focus=focus),
+                                                is_set=is_set, focus=focus, oom=oom),
                                     timeout=300 if quick else 900))
     return obs
 
@@ -1408,7 +1418,8 @@ PROPS = {
                                      'in the quick tier)'],
     ),
     'C17': dict(
-        families=['OO', 'fs'],
+        families=['OO', 'fs', 'II', 'QQ'],
+        families_thorough=['OO', 'fs', 'II', 'UU', 'LL', 'QQ'],
         asan=True,
         hook=True,
         gen=lambda tier, seed: oom_obligations('C17', tier, seed),
